@@ -60,7 +60,7 @@ def history_events() -> list[tuple[str, int, bool]]:
     return [(a, pi, resp) for a in H_TABLE for pi in range(len(H_PAYLOADS)) for resp in (False,)] + [(a, 0, True) for a in H_TABLE]
 
 
-def run_history(hist: tuple[int, ...], through_queue: bool) -> list[tuple[str, str]]:
+def run_history(hist: tuple[int, ...], through_queue: bool, reconf_at: int | None = None) -> list[tuple[str, str]]:
     """A history of group telegrams over five addresses (four typed, one untyped) through ONE GroupAddressDPT table (or the real
     consumer queue): every step behaves as the stateless decode says, whatever came before."""
     from xknx.dpt import DPTBase
@@ -87,6 +87,14 @@ def run_history(hist: tuple[int, ...], through_queue: bool) -> list[tuple[str, s
         table = GroupAddressDPT()
         table.set({a: n for a, n in H_TABLE.items() if n})
         for step, i in enumerate(hist):
+            if step == reconf_at:
+                # the assignment is loaded again (clear() + set(), what an application does when its project is re-imported)
+                try:
+                    table.clear()
+                    table.set({a: n for a, n in H_TABLE.items() if n})
+                except Exception as exc:  # noqa: BLE001
+                    viols.append((exc_sig("reconfiguration-raises", exc), f"history {desc[:step]}: {exc!r}"))
+                    break
             tg = mk(i)
             try:
                 table.set_decoded_data(tg)
@@ -105,7 +113,10 @@ def run_history(hist: tuple[int, ...], through_queue: bool) -> list[tuple[str, s
         w.xknx.group_address_dpt.set({a: n for a, n in H_TABLE.items() if n})
         w.xknx.telegram_queue.register_telegram_received_cb(lambda t: seen.append(t))
         w.start()
-        for i in hist:
+        for step, i in enumerate(hist):
+            if step == reconf_at:
+                w.xknx.group_address_dpt.clear()
+                w.xknx.group_address_dpt.set({a: n for a, n in H_TABLE.items() if n})
             w.incoming(mk(i))
             w.run(0.01)
         w.run(1.0)
@@ -134,6 +145,11 @@ def w_history(k: int, n: int, depth: int) -> Part:
         part.nontrivial += 1
         for sig, detail in run_history(hist, False):
             part.viol(sig, detail, ["history", list(hist), False], rank=(len(hist), hist))
+        # ... and with the table cleared and loaded again before the last or the last-but-one telegram
+        for at in (depth - 1, depth - 2):
+            part.evaluations += 1
+            for sig, detail in run_history(hist, False, at):
+                part.viol(sig + ":after-reconfiguration", detail + f" (clear()+set() before telegram #{at + 1})", ["history", list(hist), False, at], rank=(len(hist), hist))
     # through the real consumer: all histories of length 2, and of length 3 over the events of the first three addresses
     evs = history_events()
     sub = [i for i, e in enumerate(evs) if e[0] in ("1/0/1", "1/0/2", "1/0/5") and e[1] in (0, 1, 4, 5)]
@@ -145,6 +161,10 @@ def w_history(k: int, n: int, depth: int) -> Part:
         part.nontrivial += 1
         for sig, detail in run_history(hist, True):
             part.viol(sig, detail, ["history", list(hist), True], rank=(len(hist), hist))
+        if len(hist) == 2:
+            part.evaluations += 1
+            for sig, detail in run_history(hist, True, 1):
+                part.viol(sig + ":after-reconfiguration", detail + " (clear()+set() before the last telegram)", ["history", list(hist), True, 1], rank=(len(hist), hist))
     return part
 
 
@@ -210,7 +230,7 @@ def run(ctx: Ctx) -> None:
 
 def replay(case: Any) -> list[tuple[str, str]]:
     if case[0] == "history":
-        return run_history(tuple(case[1]), bool(case[2]))
+        return run_history(tuple(case[1]), bool(case[2]), case[3] if len(case) > 3 else None)
     name, p = case[0], case[1]
     cls = next(c for c in all_dpt_classes() if c.__name__ == name)
     payload = unpl(p)
